@@ -86,6 +86,10 @@ type c20pool struct {
 	res  []int           // pool tensors that are results of earlier operations
 	idx  []tensor.Range  // ONE full-length index value ({0,0} = whole dimension, then a window) that all goroutines pass to Slice / Patch, read-only
 	D, O int
+	// a parameter used at three places of a graph that was back-propagated BEFORE the pool was shared; nobody has read its gradient
+	// yet: the first Gradient() calls come from several goroutines at once (reading a gradient is a read)
+	spentParam tensor.Tensor
+	spentGrad  *ref.T
 }
 
 func c20BuildPool(r *rand.Rand) (*c20pool, error) {
@@ -216,6 +220,32 @@ func c20BuildPool(r *rand.Rand) (*c20pool, error) {
 	p.bce, p.ce = losses.NewBCE(), losses.NewCE()
 	p.opt = optimizers.NewSGD(&optimizers.SGDConfig{LearningRate: 0.25})
 	p.idx = []tensor.Range{{From: 0, To: 0}, {From: 1, To: 3}}
+	{
+		sh := [][]int{{3}, {2, 3}, {4}}[r.Intn(3)]
+		wv := Shuffled(r, Unique(r, sh, 0.2, 1.5))
+		w := rt.MustLeaf(wv, true)
+		p.spentGrad = ref.Zeros(sh)
+		var acc tensor.Tensor
+		for q := 0; q < 3; q++ {
+			xv := Shuffled(r, Unique(r, sh, 0.5, 2))
+			y, err := w.Mul(rt.MustLeaf(xv, false))
+			if err != nil {
+				return nil, err
+			}
+			if acc == nil {
+				acc = y
+			} else if acc, err = acc.Add(y); err != nil {
+				return nil, err
+			}
+			for i := range xv.Data {
+				p.spentGrad.Data[i] += xv.Data[i]
+			}
+		}
+		if err := tensor.BackPropagate(acc); err != nil {
+			return nil, err
+		}
+		p.spentParam = w
+	}
 	return p, nil
 }
 
@@ -298,6 +328,8 @@ func c20GenJobs(r *rand.Rand, p *c20pool, n int) []c20job {
 				a = (a + 1) % np
 			}
 			jobs = append(jobs, c20job{kind: "read-shared", a: a, seed: r.Int63()})
+		case q == 6 && r.Intn(8) == 0:
+			jobs = append(jobs, c20job{kind: "read-gradient"})
 		case q == 6 && r.Intn(5) == 0:
 			jobs = append(jobs, c20job{kind: "private-constants", seed: r.Int63()})
 		case q == 6 && r.Intn(4) == 0:
@@ -453,6 +485,27 @@ func c20Run(p *c20pool, jobs []c20job, inject *rand.Rand, start time.Time, rec *
 			}
 			sort.Slice(sum, func(a, b int) bool { return sum[a] < sum[b] })
 			out = append(out, sum...)
+		case "read-gradient": // Gradient() of a shared, already back-propagated parameter, and a computation on it
+			if e := span("Gradient(shared spent parameter)", []int{-2}, func() error {
+				g := p.spentParam.Gradient()
+				if g == nil {
+					return fmt.Errorf("Gradient() of the shared back-propagated parameter is nil")
+				}
+				gv, err := rt.Read(g)
+				if err != nil {
+					return err
+				}
+				if e := rt.CompareRef(gv, p.spentGrad, 1e-12, 1e-12, nil, 0); e != nil {
+					return fmt.Errorf("Gradient() of the shared back-propagated parameter (three shares): %v", e)
+				}
+				out = append(out, math.Float64bits(g.Scale(1).Sum()))
+				for _, v := range gv.Data {
+					out = append(out, math.Float64bits(v))
+				}
+				return nil
+			}); e != nil {
+				return out, e
+			}
 		case "private-constants": // every goroutine builds ITS OWN constants with the same arguments as everybody else; they are independent objects
 			r := rand.New(rand.NewSource(j.seed))
 			trainer := r.Intn(2) == 0
@@ -1095,6 +1148,23 @@ func runC20(c *fw.Ctx) {
 			for g := range jobs {
 				jobs[g] = c20GenJobs(k.Rng, pool, 6+k.Rng.Intn(10))
 				seeds[g] = k.Rng.Int63()
+			}
+			if i%8 == 7 {
+				// focused runs: every goroutine does jobs of ONE kind at the same time (with its own seeds), so that the windows of that
+				// kind - a shared loss object rebuilt for another batch shape, shape operations on one shared result, transposes of one
+				// shared tensor, private products - overlap in every run instead of once in a while
+				kind := []string{"shared-loss", "shape-ops-on-a-shared-result", "transpose-shared", "private-matmul", "read-gradient"}[(i/8)%5]
+				for g := range jobs {
+					jobs[g] = jobs[g][:0]
+					for n := 0; n < 8; n++ {
+						j := c20job{kind: kind, seed: k.Rng.Int63()}
+						if kind == "shape-ops-on-a-shared-result" {
+							j.a = pool.res[k.Rng.Intn(len(pool.res))]
+						}
+						jobs[g] = append(jobs[g], j)
+					}
+				}
+				k.Count("focused_runs_"+kind, 1)
 			}
 			results := make([][]uint64, G)
 			errs := make([]error, G)
